@@ -21,6 +21,7 @@ RULE = (
     "subset in quick) x dynamic signatures (several channels/types) x constant signatures (none/one/two types) x "
     "downsample 0..1 x trajectory batch 1..3; unique-id frames. Non-trivial: dt>1 or skip>0 or future>1; distinct by tuple+layout."
 )
+RULE += " Also: downsample 0..3, long trajectories, NumPy-backed fields, keyword / default call forms, int32 dynamic fields next to non-integer float32 constants (exact comparison without pooling), checkify index checks."
 EXHAUSTIVE = {"quick": False, "thorough": True}
 ASSUMPTIONS = ["window table vmon/ref/misc.py:windows written from the statement", "2x2 block mean as the downsample reference"]
 ANCHORS = ["ginjax.data:time_series_idxs", "ginjax.data:times_series_to_multi_images", "ginjax.data:batch_time_series"]
